@@ -80,24 +80,6 @@ func NewReadOnlyFS(bundle *core.Bundle, opts ...Option) (*ReadOnlyFS, error) {
 		fs.m = fs.EnsureMetrics("fuse", &M{}).(*M)
 	}
 
-	if fs.streamed {
-		// prepare the content-addressable backend for this bundle
-		cafs, err := cafs.New(
-			cafs.LeafSize(bundle.BundleDescriptor.LeafSize),
-			cafs.LeafTruncation(bundle.BundleDescriptor.Version < 1),
-			cafs.Backend(bundle.BlobStore()),
-			cafs.Logger(fs.l),
-			cafs.CacheSize(fs.lruSize),
-			cafs.Prefetch(fs.prefetch),
-			cafs.VerifyHash(fs.withVerifyHash),
-			cafs.WithMetrics(fs.MetricsEnabled()),
-		)
-		if err != nil {
-			return nil, err
-		}
-		fs.cafs = cafs
-	}
-
 	fs.l = fs.l.With(zap.String("repo", bundle.RepoID), zap.String("bundle", bundle.BundleID))
 
 	if fs.streamed {
@@ -114,6 +96,25 @@ func NewReadOnlyFS(bundle *core.Bundle, opts ...Option) (*ReadOnlyFS, error) {
 			fs.l.Error("Failed to publish bundle", zap.String("id", bundle.BundleID), zap.Error(err))
 			return nil, err
 		}
+	}
+
+	if fs.streamed {
+		// prepare the content-addressable backend for this bundle.
+		// The leaf size of the bundle is known now that its descriptor has been retrieved.
+		cafs, err := cafs.New(
+			cafs.LeafSize(bundle.BundleDescriptor.LeafSize),
+			cafs.LeafTruncation(bundle.BundleDescriptor.Version < 1),
+			cafs.Backend(bundle.BlobStore()),
+			cafs.Logger(fs.l),
+			cafs.CacheSize(fs.lruSize),
+			cafs.Prefetch(fs.prefetch),
+			cafs.VerifyHash(fs.withVerifyHash),
+			cafs.WithMetrics(fs.MetricsEnabled()),
+		)
+		if err != nil {
+			return nil, err
+		}
+		fs.cafs = cafs
 	}
 
 	// Populate the filesystem with medatata
